@@ -103,7 +103,7 @@ RecPool == {[uid |-> u, alias |-> a, kind |-> k, def |-> DefPool[d], conv |-> <<
 
 Op(o) == [op |-> o, u |-> 0, a |-> "", k |-> "", p |-> 0, b |-> FALSE, fresh |-> 0, d |-> <<>>, hasdef |-> FALSE, w |-> <<>>, q |-> <<>>,
           rec |-> <<>>]
-Toks(d) == IF d = NoDef THEN <<>> ELSE Render(d, FALSE).t
+Toks(d) == IF d = NoDef THEN <<>> ELSE Render(d, 0).t
 Fresh == CHOOSE u \in UidPool : u \notin Ids /\ \A v \in UidPool : v \notin Ids => u <= v     \* smallest free identifier of the pool
 Fresh2(avoid) == CHOOSE u \in UidPool : u \notin Ids /\ u # avoid /\ \A v \in UidPool : (v \notin Ids /\ v # avoid) => u <= v
 CanGrow == Cardinality(Ids) < MaxCst /\ (UidPool \ Ids) # {}
